@@ -43,6 +43,11 @@ class IntegerNode(BaseNode, SelectNode):
         if value is None and not (self.value_raw is None or (isinstance(self.value_raw, str) and self.value_raw=='')):
             self.value = IntegerType(self.cast_value(), self.units_raw, precision=self.precision, unsigned=self.unsigned)
         elif value is not None:
+            # a value converted from another unit arrives as a float (e.g. 1 us = 999.9999999999999 ns)
+            if isinstance(value, (float, np.floating)):
+                value = int(np.round(value))
+            elif isinstance(value, np.ndarray) and value.dtype.kind=='f':
+                value = np.round(value).astype(int)
             self.value = IntegerType(value, self.units_raw, precision=self.precision, unsigned=self.unsigned)
         else:
             self.value = None
